@@ -105,13 +105,13 @@ def run(ctx):
     alias_summary = {}
     for a in aliases:
         fam = a["fam"]
-        ok, so, se = ctx.coq_cases("Alias_" + fam, alias_file(a))
+        ok, so, se = ctx.coq_cases("Alias_" + fam.replace("+", "_"), alias_file(a))
         unl = [s for s in a["shared"] if not s["allow"]]
         name = "alias:no_shared_mutable(%s)" % fam
         ctx.oblige(name, ok, "" if ok else ("unlisted shared locations: %s; %s" % (
             [(s["between"], s["kind"], s["type"], s["path"][-120:]) for s in unl][:5], " ".join((se or so).split())[-400:])))
         if not ok:
-            ctx.broken.append("%s (gen/Alias_%s.v: footprints of prototype and clones are not pairwise disjoint, "
+            ctx.broken.append("%s (gen/Alias_<%s>.v: footprints of prototype and clones are not pairwise disjoint, "
                               "or a shared location is not allow-listed)" % (name, fam))
         alias_summary[fam] = {
             "reachable": a["reachable"], "shared_total": a["shared_total"],
@@ -122,9 +122,9 @@ def run(ctx):
             "footprint_sizes": {k: len(v) for k, v in a["fp"].items()}, "overlaps": a.get("overlaps", []),
             "explorer_attribute_names": a.get("explorer_attribute_names"),
         }
-    if len(aliases) != 3:
+    if len(aliases) != 5:
         ctx.oblige("alias:translator_ran_for_all_families", False, "got %d alias lines" % len(aliases))
-        ctx.broken.append("alias translator did not report all three annealer configurations")
+        ctx.broken.append("alias translator did not report all five annealer/model configurations")
     sites = astfacts[0]["global_write_sites"] if astfacts else ["<ast translator did not run>"]
     body = g.HEADER + "Open Scope string_scope.\n"
     body += "(* AST fact: call sites of os.Chdir / os.Setenv / os.Unsetenv / os.Clearenv in non-test code *)\n"
